@@ -590,13 +590,22 @@ def finish_grown(c, bi, parts, blocks, snap_blocks, alignment, tables, nop,
     nalign = 0
     for b, a in (alignment or {}).items():
         k = blocks.index(b)
+        zctx = ""
         if not snap_blocks[k][1]:
-            continue
+            # a zero-sized block: one that stands where a block with bytes
+            # ends or begins is a group (and a piece) of its own and is
+            # aligned like any other; one inside the bytes of another block
+            # cannot be
+            a0 = snap_blocks[k][0]
+            if any(sz_ and a_ < a0 < a_ + sz_
+                   for a_, sz_, _ in snap_blocks):
+                continue
+            zctx = ":zero-sized"
         nalign += 1
         addr = base + b.offset
         if addr % a:
             viol.append({
-                "key": "join:alignment-lost:after-growth" + (
+                "key": "join:alignment-lost:after-growth" + zctx + (
                     ":not-the-first-aligned-block-of-its-group"
                     if id(b) in later_aligned else ""),
                 "msg": f"block {k} at {addr:#x} not {a}-aligned"})
@@ -703,9 +712,20 @@ def run_align(case):
     table = m.aux_data["alignment"].data if "alignment" in m.aux_data \
         else {}
     held = 0
+    info_items = {b["id"]: bool(b["items"]) for s_ in case["secs"]
+                  for iv in s_["ivs"] for b in iv["blocks"]}
+    input_empty = {id(g) for bid, g in r.bu.blocks.items()
+                   if not info_items.get(bid, True)}
     for blk, a in nalign["entries"].items():
-        if blk.byte_interval is None or blk.size == 0:
+        # (a block the rewrite emptied keeps no requirement worth the name;
+        # one that was zero-sized in the input does: its address is where
+        # its labels are)
+        if blk.byte_interval is None or (
+                blk.size == 0 and id(blk) not in input_empty):
             continue
+        if blk.size == 0:
+            ctr["zero_sized_alignment_checks"] = ctr.get(
+                "zero_sized_alignment_checks", 0) + 1
         ctr["alignment_checks"] += 1
         # (a patch inserted at the block's start may have asked for more: the
         # entry may grow; that requirement is judged with the patch's)
